@@ -14,6 +14,8 @@ use simple_sds::ops::*;
 use simple_sds::raw_vector::{AccessRaw, PushRaw, RawVector, RawVectorWriter};
 use simple_sds::rl_vector::{RLBuilder, RLVector};
 use simple_sds::serialize::{self, Serialize};
+use simple_sds::sparse_vector::{SparseBuilder, SparseVector};
+use std::convert::TryFrom;
 use simple_sds::wavelet_matrix::wm_core::WMCore;
 use simple_sds::wavelet_matrix::WaveletMatrix;
 use std::fmt::Write as FmtWrite;
@@ -749,6 +751,186 @@ fn systematic_items(rng: &mut Rng, thorough: bool) -> Vec<Box<dyn Item>> {
     v
 }
 
+// ---------------------------------------------------------------- SparseVector (outside the type universe of the
+// Coq side: described by the recipe (low width the crate chose, universe, multiset?, values); cases CRoundS / CTruncS)
+
+pub struct SpItem {
+    g: G<SparseVector>,
+    w: u64,
+    len: usize,
+    multi: bool,
+    vals: Vec<usize>,
+}
+
+// low.width of a SparseVector, read from its serialized elements:
+// [len] ++ bitvector(ones, raw(len, nwords, words), 3 options) ++ intvector(len, width, ..)
+fn sparse_width(sv: &SparseVector) -> u64 {
+    let ser = crate::bvgen::serialize_elems(sv);
+    let mut p = 3; // len, ones, raw len
+    let nwords = ser[p] as usize;
+    p += 1 + nwords;
+    for _ in 0..3 {
+        let sz = ser[p] as usize;
+        p += 1 + sz;
+    }
+    ser[p + 1]
+}
+
+// `count` values in a universe of `len`: a set (distinct, increasing) or a multiset (non-decreasing with repeats,
+// possibly more values than positions); profile 0: uniform, 1: clustered at the start / end / a bucket boundary
+fn g_sparse(rng: &mut Rng, len: usize, count: usize, multi: bool, profile: u64) -> SpItem {
+    let mut vals: Vec<usize> = Vec::new();
+    if len > 0 {
+        if multi {
+            for _ in 0..count {
+                let v = match profile {
+                    0 => rng.below(len as u64) as usize,
+                    _ => *rng.pick(&[0usize, len / 2, len - 1]),
+                };
+                vals.push(v);
+            }
+            vals.sort();
+        } else {
+            let count = std::cmp::min(count, len);
+            let mut set = std::collections::BTreeSet::new();
+            let mut guard = 0;
+            while set.len() < count && guard < 100 * count + 100 {
+                guard += 1;
+                let v = match profile {
+                    0 => rng.below(len as u64) as usize,
+                    _ => {
+                        let base = *rng.pick(&[0usize, len / 2, len.saturating_sub(count + 1)]);
+                        std::cmp::min(len - 1, base + rng.below(2 * count as u64 + 1) as usize)
+                    }
+                };
+                set.insert(v);
+            }
+            vals = set.into_iter().collect();
+        }
+    }
+    let mut bld = if multi { SparseBuilder::multiset(len, vals.len()) } else { SparseBuilder::new(len, vals.len()).unwrap() };
+    for v in vals.iter() {
+        bld.try_set(*v).unwrap();
+    }
+    let sv = SparseVector::try_from(bld).unwrap();
+    let w = sparse_width(&sv);
+    let probes: Vec<usize> = {
+        let mut p = vec![0usize, 1, len / 2, len.saturating_sub(1), len, usize::MAX];
+        for v in vals.iter().take(6) {
+            p.extend_from_slice(&[*v, v.saturating_sub(1), v.saturating_add(1)]);
+        }
+        p
+    };
+    let zero_queries = !multi;
+    let mut g = plain(sv, "TSparse", String::new());
+    g.answers = Box::new(move |a: &SparseVector, b: &SparseVector| {
+        let mut ok = a.len() == b.len() && a.count_ones() == b.count_ones() && a.count_zeros() == b.count_zeros();
+        ok &= a.one_iter().collect::<Vec<_>>() == b.one_iter().collect::<Vec<_>>();
+        for x in probes.iter() {
+            ok &= a.rank(*x) == b.rank(*x);
+            ok &= a.select(*x) == b.select(*x);
+            ok &= a.predecessor(*x).next() == b.predecessor(*x).next();
+            ok &= a.successor(*x).next() == b.successor(*x).next();
+            if zero_queries {
+                ok &= a.select_zero(*x) == b.select_zero(*x);
+            }
+            if *x < a.len() {
+                ok &= a.get(*x) == b.get(*x);
+            }
+        }
+        ok
+    });
+    SpItem { g, w, len, multi, vals }
+}
+
+fn sp_head(it: &SpItem) -> String {
+    format!("{} {} {} {} {} {}", it.w, PATH, b(DBG), nu(it.len), b(it.multi), ulist(&it.vals))
+}
+
+fn sparse_items(rng: &mut Rng, thorough: bool) -> Vec<SpItem> {
+    let mut v: Vec<SpItem> = Vec::new();
+    // empty universe, empty set, full set, single values at the ends
+    v.push(g_sparse(rng, 0, 0, false, 0));
+    v.push(g_sparse(rng, 0, 0, true, 0));
+    v.push(g_sparse(rng, 70, 0, false, 0));
+    v.push(g_sparse(rng, 70, 70, false, 0));
+    v.push(g_sparse(rng, 1, 1, false, 0));
+    // small and medium universes, several densities (low widths 1 .. ~10), word boundaries of high and low
+    for len in [1usize, 2, 63, 64, 65, 137, 300, 1000, 5000] {
+        for count in [1usize, 2, 7, 33] {
+            let p = rng.below(2);
+            v.push(g_sparse(rng, len, count, false, p));
+        }
+    }
+    // huge universes with few values (low widths up to 63)
+    for len in [1usize << 20, 1usize << 40, 1usize << 63, usize::MAX - 1, usize::MAX] {
+        for count in [1usize, 3, 40] {
+            v.push(g_sparse(rng, len, count, false, 0));
+        }
+    }
+    // multisets: repeats, more values than positions
+    for (len, count) in [(1usize, 3usize), (5, 8), (10, 4), (300, 12), (300, 400), (1usize << 40, 9), (usize::MAX, 6)] {
+        v.push(g_sparse(rng, len, count, true, 0));
+        v.push(g_sparse(rng, len, count, true, 1));
+    }
+    let extra = if thorough { 120 } else { 30 };
+    for _ in 0..extra {
+        let bits = 1 + rng.below(64);
+        let len = if bits == 64 { usize::MAX } else { (1usize << bits) - 1 + rng.below(2) as usize };
+        let count = 1 + rng.below(60) as usize;
+        let multi = rng.below(4) == 0;
+        let p = rng.below(2);
+        v.push(g_sparse(rng, len, count, multi, p));
+    }
+    v
+}
+
+fn emit_round_sparse(out: &mut Out, rng: &mut Rng, sp: &SpItem) {
+    let it: &dyn Item = &sp.g;
+    let bytes = serialize_item(it);
+    let (elems, tail) = to_elems(&bytes);
+    let extra: Vec<u8> = (0..rng.below(12)).map(|_| rng.below(256) as u8).collect();
+    let mut stream = bytes.clone();
+    stream.extend_from_slice(&extra);
+    let chunk = *rng.pick(&[0usize, 0, 1, 3, 8, 13]);
+    let mut reader = CountingReader::new(&stream, chunk);
+    let r = catch(|| it.load_cmp(&mut reader));
+    let (eq, mut ans) = match r {
+        Res::Ok(Ok((a, b))) => (a, b),
+        _ => (false, false),
+    };
+    // the file-based entry points: serialize_to / load_from
+    let dir = std::env::var("VERIF_RUNDIR").unwrap_or_else(|_| ".".to_string());
+    let path = std::path::Path::new(&dir).join(format!("c06_tmp_{}_{}.bin", std::process::id(), out.n));
+    let f = catch(|| it.file_roundtrip(&path, &bytes));
+    ans &= matches!(f, Res::Ok(true));
+    out.stat("c06.file_roundtrips");
+    let term = format!("CRoundS {} {} {} {} {} {} {} {} {}", sp_head(sp), nlist(&elems), blist8(&tail),
+        it.size_el(), it.size_by(), blist8(&extra), reader.pos, b(eq), b(ans));
+    out.stat(&format!("c06.round.TSparse.{}", if sp.multi { "multiset" } else { "set" }));
+    out.stat(&format!("c06.sparse_width.{:02}", sp.w));
+    out.case("sparse", term, format!("{{\"ty\":\"SparseVector\",\"universe\":{},\"values\":{},\"multiset\":{},\"size\":{},\"consumed\":{},\"eq\":{}}}",
+        sp.len, sp.vals.len(), sp.multi, bytes.len(), reader.pos, eq), bytes.len() > 8);
+}
+
+fn emit_trunc_sparse(out: &mut Out, sp: &SpItem) {
+    let it: &dyn Item = &sp.g;
+    let bytes = serialize_item(it);
+    let (elems, _) = to_elems(&bytes);
+    let mut outcomes: Vec<u64> = Vec::with_capacity(bytes.len());
+    for k in 0..bytes.len() {
+        let mut reader = CountingReader::new(&bytes[..k], 0);
+        let r = catch(|| it.load_cmp(&mut reader));
+        outcomes.push(outcome(&r));
+    }
+    out.stat_n("c14.loads", bytes.len() as u64);
+    out.stat_n("c14.loads.not_err", outcomes.iter().filter(|c| **c == 0 || **c >= 10).count() as u64);
+    out.stat("c14.trunc.TSparse");
+    let term = format!("CTruncS {} {} {}", sp_head(sp), nlist(&elems), rle(&outcomes));
+    out.case("trunc_sparse", term, format!("{{\"ty\":\"SparseVector\",\"universe\":{},\"values\":{},\"size\":{},\"outcomes\":{:?}}}",
+        sp.len, sp.vals.len(), bytes.len(), rle(&outcomes)), bytes.len() > 8);
+}
+
 fn serialize_item(it: &dyn Item) -> Vec<u8> {
     let mut buf: Vec<u8> = Vec::new();
     it.ser(&mut buf).unwrap();
@@ -1126,6 +1308,9 @@ fn run_c06(rng: &mut Rng, out: &mut Out, thorough: bool) {
         let it = random_item(rng, max);
         emit_round(out, rng, it.as_ref(), "random");
     }
+    for sp in sparse_items(rng, thorough).iter() {
+        emit_round_sparse(out, rng, sp);
+    }
     for _ in 0..(if thorough { 1500 } else { 300 }) {
         let n = 1 + rng.below(5) as usize;
         let items: Vec<Box<dyn Item>> = (0..n).map(|_| { let max = *rng.pick(&[64usize, 300, 1000]); random_item(rng, max) }).collect();
@@ -1224,6 +1409,15 @@ fn run_c14(rng: &mut Rng, out: &mut Out, thorough: bool) {
         if rng.below(3) == 0 {
             emit_sink(out, it.as_ref(), 1);
         }
+    }
+    // SparseVector: every truncation point of the small instances
+    for sp in sparse_items(rng, false).iter() {
+        let it: &dyn Item = &sp.g;
+        if it.size_by() > limit {
+            out.stat("c14.skipped_large");
+            continue;
+        }
+        emit_trunc_sparse(out, sp);
     }
     run_c14_writers(rng, out, thorough);
 }
